@@ -44,28 +44,148 @@ Definition late_ok (g : bool) (k : call) : bool :=
   | KCommit, PDone ROther => negb g
   | _, _ => false
   end.
-Definition inv6 (s : state) : Prop :=
+Definition inv6 (g : bool) (s : state) : Prop :=
   forall c k, nth_error (calls s) c = Some k ->
     exists late pre, call_info c (hist s) = Some (k_kind k, late, pre) /\
-      (late = true -> existsb is_closed_ev (hist s) = true /\ late_ok (c_group (cfg s)) k = true).
+      (late = true -> existsb is_closed_ev (hist s) = true /\ late_ok g k = true).
 
 Lemma reply_all_nth : forall cs ok s c k', nth_error (calls (reply_all cs ok s)) c = Some k' ->
   exists k, nth_error (calls s) c = Some k /\ k_kind k' = k_kind k /\ (k' = k \/ k_ph k = PCWait None).
 Proof.
-  induction cs; intros ok s c k' H; simpl in H; [eauto|].
+  induction cs; intros ok s c k' H; simpl in H; [exists k'; auto|].
   destruct (IHcs _ _ _ _ H) as (k1 & H1 & K1 & D1). clear H IHcs.
-  unfold reply in H1. destruct (nth_error (calls s) a) eqn:E; [|eauto].
-  destruct (k_ph c0) as [| | | |[rp|]| | |] eqn:P; eauto.
+  unfold reply in H1. destruct (nth_error (calls s) a) eqn:E; [|exists k1; auto].
+  destruct (k_ph c0) as [| | | |[rp|]| | |] eqn:P; try (exists k1; auto; fail).
   unfold set_call in H1. cbn in H1. rewrite nth_upd in H1. destruct (Nat.eqb_spec a c).
-  - subst. rewrite E in H1. inversion H1; subst k1. exists c0. split; auto. split; [rewrite K1; reflexivity|].
-    right. exact P.
-  - eauto.
+  - subst. rewrite E in H1. inversion H1; subst k1. exists c0. cbn in K1. auto.
+  - exists k1. auto.
 Qed.
 
 Lemma late_ok_wait : forall g k k', k_kind k' = k_kind k -> k_ph k = PCWait None -> late_ok g k = true -> late_ok g k' = true.
 Proof. intros g k k' K P L. unfold late_ok in *. rewrite K. rewrite P in L. destruct (k_kind k); try discriminate. reflexivity. Qed.
-(* ---- use after close: what does hold ---- *)
-Theorem after_close_partial_proof : forall c ls s, run step (init c) ls = Some s -> close_returned s = true ->
+Ltac inv6_same IH :=
+  let c1 := fresh "c1" in let k1 := fresh "k1" in let Hn := fresh "Hn" in
+  intros c1 k1 Hn; cbn in Hn;
+  destruct (IH c1 k1 Hn) as (late & pre & Hi & Hl); exists late, pre; split;
+  [cbn; exact Hi | intros L; destruct (Hl L) as [L1 L2]; split; [cbn; rewrite ?L1, ?orb_true_r; reflexivity | exact L2]].
+(* call c0 changes phase: the proof obligation is late_ok of the new record *)
+Ltac inv6_upd IH c0 E :=
+  let c1 := fresh "c1" in let k1 := fresh "k1" in let Hn := fresh "Hn" in
+  intros c1 k1 Hn; cbn in Hn; rewrite nth_upd in Hn; destruct (Nat.eqb_spec c0 c1);
+  [ subst c1; rewrite E in Hn; injection Hn as Hn; subst k1;
+    destruct (IH c0 _ E) as (late & pre & Hi & Hl); exists late, pre; split;
+    [cbn; exact Hi | intros L; destruct (Hl L) as [L1 L2]; split; [cbn; rewrite ?L1, ?orb_true_r; reflexivity | ]]
+  | destruct (IH c1 k1 Hn) as (late & pre & Hi & Hl); exists late, pre; split;
+    [cbn; exact Hi | intros L; destruct (Hl L) as [L1 L2]; split; [cbn; rewrite ?L1, ?orb_true_r; reflexivity | exact L2]] ].
+
+Lemma inv6_step : forall g s l s', c_group (cfg s) = g ->
+  (existsb is_closed_ev (hist s) = true -> closed s = true /\ stctx s = true) ->
+  inv6 g s -> step s l = Some s' -> inv6 g s'.
+Proof.
+  intros g s l s' G Q IH St. unfold inv6 in *.
+  destruct l;
+  try solve [ step_inv St; unf; try rewrite reply_all_calls_only; destr_goal; inv6_same IH ];
+  try solve [ step_inv St; unf; destr_goal;
+              match goal with E : nth_error (calls s) ?c0 = Some _ |- _ => inv6_upd IH c0 E end;
+              unfold late_ok in *; cbn in *;
+              repeat match goal with P : k_ph _ = _ |- _ => rewrite P in *; revert P end; intros;
+              destr_in L2; try discriminate; try reflexivity;
+              try (destruct (Q L1) as [Qa Qb]; congruence) ].
+  - (* LCall *)
+    step_inv St; try subst g; intros c1 k1 Hn; cbn in Hn; apply nth_app_cases in Hn as [Hn|[Ec Ek]];
+    first
+    [ subst c1 k1; eexists; eexists; split;
+      [cbn; rewrite Nat.eqb_refl; reflexivity
+      |intros L; split; [cbn; rewrite L; rewrite ?orb_true_r; reflexivity|try reflexivity; cbn; rewrite ?Heqb; reflexivity]]
+    | pose proof (nth_some_lt _ _ _ _ Hn) as Lt; destruct (IH c1 k1 Hn) as (late & pre & Hi & Hl); exists late, pre; split;
+      [cbn; destruct (Nat.eqb_spec c1 (length (calls s))); [lia|exact Hi]
+      |intros L; destruct (Hl L) as [L1 L2]; split; [cbn; rewrite ?L1, ?orb_true_r; reflexivity|exact L2]] ].
+  - (* LClCommit *)
+    step_inv St; unf; try rewrite reply_all_calls_only; destr_goal;
+    first
+    [ inv6_same IH
+    | intros c1 k1 Hn; cbn in Hn; apply reply_all_nth in Hn as (k0 & H0 & K0 & D0); cbn in H0;
+      destruct (IH c1 k0 H0) as (late & pre & Hi & Hl); exists late, pre; split;
+      [cbn; rewrite K0; exact Hi
+      |intros L; destruct (Hl L) as [L1 L2]; split;
+       [cbn; rewrite ?L1, ?orb_true_r; reflexivity
+       |destruct D0 as [D0|D0]; [subst k1; exact L2|eapply late_ok_wait; eauto]]] ].
+  - (* LClSeeStop *)
+    step_inv St; unf; try rewrite reply_all_calls_only; destr_goal;
+    first
+    [ inv6_same IH
+    | intros c1 k1 Hn; cbn in Hn; apply reply_all_nth in Hn as (k0 & H0 & K0 & D0); cbn in H0;
+      destruct (IH c1 k0 H0) as (late & pre & Hi & Hl); exists late, pre; split;
+      [cbn; rewrite K0; exact Hi
+      |intros L; destruct (Hl L) as [L1 L2]; split;
+       [cbn; rewrite ?L1, ?orb_true_r; reflexivity
+       |destruct D0 as [D0|D0]; [subst k1; exact L2|eapply late_ok_wait; eauto]]] ].
+Qed.
+
+Lemma inv6_reach : forall c ls s, run step (init c) ls = Some s -> inv6 (c_group c) s.
+Proof.
+  intros c. apply (reach_ind2 c (fun s => cfg s = c /\ (existsb is_closed_ev (hist s) = true -> closed s = true /\ stctx s = true))).
+  - intros ls s R. split; [eapply cfg_reach; eauto|]. intros H.
+    destruct (invs_reach _ _ _ R) as [I1 _]. pose proof (inv_h1_reach _ _ _ R H) as C6. split.
+    + apply (i_closed _ I1). apply (cl_at_mono 6); [lia|exact C6].
+    + apply (i_stctx _ I1). apply (cl_at_mono 6); [lia|exact C6].
+  - intros i k H. destruct i; discriminate.
+  - intros s l s' [E Q] _ IH St. eapply inv6_step; eauto. rewrite E. reflexivity.
+Qed.
+
+Lemma after_close_step : forall g s l s', c_group (cfg s) = g ->
+  (existsb is_closed_ev (hist s) = true -> closed s = true /\ stctx s = true) ->
+  inv6 g s -> mon_after_close g (hist s) = true -> step s l = Some s' -> mon_after_close g (hist s') = true.
+Proof.
+  intros g s l s' G Q I6 IH St.
+  destruct l;
+  try solve [ step_inv St; unf; try rewrite reply_all_calls_only; destr_goal; cbn; rewrite ?IH; reflexivity ].
+  all: step_inv St; unf; destr_goal; cbn; rewrite ?IH, ?andb_true_r; try reflexivity;
+       try (rewrite Nat.eqb_refl; cbn; subst g; try reflexivity; match goal with |- context [existsb is_closed_ev ?h] => destruct (existsb is_closed_ev h) end; reflexivity);
+       match goal with E : nth_error (calls ?s0) ?c0 = Some ?k0 |- _ =>
+         destruct (I6 c0 k0 E) as (late & pre & Hi & Hl); rewrite Hi; destruct late; [|reflexivity];
+         destruct (Hl eq_refl) as [L1 L2]; destruct (Q L1) as [Qa Qb]; unfold late_ok in L2;
+         repeat match goal with P : k_ph _ = _ |- _ => rewrite P in L2; revert P end; intros;
+         destruct (k_kind k0); try discriminate; try reflexivity; try congruence
+       end.
+  all: destruct (k_ph c0); cbn in *; discriminate.
+Qed.
+
+Theorem after_close_full_proof : forall c ls s, run step (init c) ls = Some s ->
+  mon_after_close (c_group c) (hist s) = true /\
+  (forall i k late pre, nth_error (calls s) i = Some k -> call_info i (hist s) = Some (k_kind k, late, pre) ->
+     late = true -> k_kind k <> KTrip ->
+     blocked (k_ph k) = false /\ k_ph k <> PCSelect /\
+     (k_ph k = PFLock \/ k_ph k = PCCheck \/ exists r, k_ph k = PDone r) /\
+     (k_ph k = PFLock -> step s (LFLock i) = Some (ret i k REOF s)) /\
+     (k_ph k = PCCheck -> step s (LCCheck i) = Some (ret i k RClosedPipe s))).
+Proof.
+  intros c ls s R. split.
+  - revert ls s R.
+    apply (reach_ind2 c (fun s => cfg s = c /\ inv6 (c_group c) s /\
+             (existsb is_closed_ev (hist s) = true -> closed s = true /\ stctx s = true))).
+    + intros ls s R. split; [eapply cfg_reach; eauto|]. split; [eapply inv6_reach; eauto|]. intros H.
+      destruct (invs_reach _ _ _ R) as [I1 _]. pose proof (inv_h1_reach _ _ _ R H) as C6. split.
+      * apply (i_closed _ I1). apply (cl_at_mono 6); [lia|exact C6].
+      * apply (i_stctx _ I1). apply (cl_at_mono 6); [lia|exact C6].
+    + reflexivity.
+    + intros s l s' (E & I6 & Q) _ IH St. eapply after_close_step; eauto. rewrite E. reflexivity.
+  - intros i k late pre Hk Hi Hl Hn. pose proof (inv6_reach _ _ _ R i k Hk) as (late' & pre' & Hi' & Hl').
+    rewrite Hi in Hi'. inversion Hi'; subst late' pre'. destruct (Hl' Hl) as [L1 L2].
+    destruct (invs_reach _ _ _ R) as [I1 _]. pose proof (inv_h1_reach _ _ _ R L1) as C6.
+    destruct (inv4_reach _ _ _ R) as [_ Hp _].
+    assert (Hc : closed s = true) by (apply (i_closed _ I1); apply (cl_at_mono 6); [lia|exact C6]).
+    assert (Hs : stctx s = true) by (apply (i_stctx _ I1); apply (cl_at_mono 6); [lia|exact C6]).
+    unfold late_ok in L2.
+    destruct (k_kind k) eqn:K; try congruence;
+      destruct (k_ph k) as [| | | |rp| | |r] eqn:P; try discriminate; try (destruct r; try discriminate);
+      (split; [reflexivity|]); (split; [discriminate|]);
+      (split; [eauto|]); split; intros X; try discriminate;
+      unfold step; rewrite Hp, Hk, P, ?Hc, ?Hs; reflexivity.
+Qed.
+
+(* ---- the state once a Close call has returned ---- *)
+Theorem after_close_state_proof : forall c ls s, run step (init c) ls = Some s -> close_returned s = true ->
   closed s = true /\ stctx s = true /\ all_exited s = true /\
   (forall l s', step s l = Some s' -> length (msgs s') <= length (msgs s)) /\
   (forall i, step s (LFRunErr i) = None) /\
@@ -93,34 +213,15 @@ Proof.
   - intros Hr. unfold step. rewrite Hp, Hk, Hph, Hr. reflexivity.
 Qed.
 
-(* ---- use after close: what the code does not do ---- *)
-Theorem after_close_fetch_refuted_proof :
-  exists s, run step (init (cfg_p 4)) wit_fetch_buffered = Some s /\
-    close_returned s = true /\ map k_ph (calls s) = [PDone RMsg; PDone RMsg] /\
-    mon_late_fetch (hist s) = false /\ mon_after_close (hist s) = false.
-Proof. eexists. split; [vm_compute; reflexivity|]. repeat split; vm_compute; reflexivity. Qed.
 
-Definition wit_commit_async : list label :=
-  firstn (length wit_commit_enqueued - 2) wit_commit_enqueued.
-
-Theorem after_close_commit_refuted_proof :
-  (exists s, run step (init (cfg_g true 4)) wit_commit_enqueued = Some s /\
-     close_returned s = true /\ map k_ph (calls s) = [PDone RCtx] /\ commits s = [0] /\
-     live s = 0 /\ mon_late_commit (hist s) = false /\ mon_after_close (hist s) = false) /\
-  (exists s, run step (init (cfg_g false 4)) wit_commit_async = Some s /\
-     close_returned s = true /\ map k_ph (calls s) = [PDone RNil] /\ commits s = [0] /\
-     live s = 0 /\ mon_late_commit (hist s) = false).
+(* ---- regression schedules of the three former defects ---- *)
+Theorem after_close_regressions_proof :
+  (exists s, run step (init (cfg_p 4)) wit_fetch_buffered = Some s /\ close_returned s = true /\
+     map k_ph (calls s) = [PDone RMsg; PDone REOF] /\ msgs s = [1] /\ C09R_holds false (hist s) = true) /\
+  (exists s, run step (init (cfg_g true 4)) wit_commit_enqueued = Some s /\ close_returned s = true /\
+     map k_ph (calls s) = [PDone RClosedPipe] /\ commits s = [] /\ live s = 0 /\ C09R_holds true (hist s) = true) /\
+  (exists s, run step (init (cfg_g true 4)) wit_no_leave = Some s /\ close_returned s = true /\ live s = 0 /\
+     C09R_holds true (hist s) = true /\ In (EJoined 1) (hist s) /\ In (EReq ALeave 1) (hist s) /\ mid s = None).
 Proof.
-  split; eexists; (split; [vm_compute; reflexivity|]); repeat split; vm_compute; reflexivity.
-Qed.
-
-Theorem leave_strict_refuted_proof :
-  exists s, run step (init (cfg_g true 4)) wit_no_leave = Some s /\ close_returned s = true /\
-    live s = 0 /\ mon_leave (hist s) = true /\ mon_leave_strict (hist s) = false /\
-    In (EJoined 1) (hist s) /\ ~ In (EReq ALeave 1) (hist s).
-Proof.
-  eexists. split; [vm_compute; reflexivity|]. split; [vm_compute; reflexivity|]. split; [vm_compute; reflexivity|].
-  split; [vm_compute; reflexivity|]. split; [vm_compute; reflexivity|]. split.
-  - vm_compute. tauto.
-  - vm_compute. intros H. repeat (destruct H as [H|H]; [discriminate|]). exact H.
+  split; [|split]; eexists; (split; [vm_compute; reflexivity|]); repeat split; vm_compute; try reflexivity; tauto.
 Qed.
